@@ -911,6 +911,7 @@ func runC09(a args, o *out) {
 		}
 		c09RaceOpen(o, rounds)
 		c09Vanished(o)
+		c09Oneway(o)
 	}
 
 	nworkers := 4
